@@ -118,6 +118,8 @@ class BottomUpInferenceModel(L.LightningModule):
         """
         # Network forward pass.
         self.batch_size = inputs["image"].shape[0]
+        # Inference only: BatchNorm/Dropout must be in eval mode.
+        self.torch_model.eval()
         output = self.torch_model(inputs["image"])
         cms = output["MultiInstanceConfmapsHead"]
         pafs = output["PartAffinityFieldsHead"].permute(0, 2, 3, 1)
